@@ -58,7 +58,7 @@ def optKindName : String → String
   | "0" => "0(none)" | "1" => "1(one)" | "2" => "2(all)" | "3" => "3(zero-valued)" | "4" => "4(negative)"
   | "5" => "5(empty/reordered/repeated)" | o => o
 def ctxKindName : Nat → String
-  | 0 => "background" | 1 => "far-deadline" | 2 => "cancelled" | _ => "?"
+  | 0 => "background" | 1 => "far-deadline" | 2 => "cancelled" | 3 => "deadline-expired" | _ => "?"
 def exitKindName : Nat → String
   | 1 => "panic-string" | 2 => "panic-error-value" | 3 => "runtime.Goexit" | _ => "?"
 
@@ -153,7 +153,7 @@ def runSection (r : Report) (s : Section) : Report := Id.run do
   r := r.addCover s!"{mode}-sections"
   if kvStr s.cfg "herd" "0" = "1" then r := r.addCover s!"{mode}-sections-herd"
   if mode = "rm" && kvStr s.cfg "sfd" "-" ≠ "-" then r := r.addCover "rm-sections-delayed-flight-entry"
-  if via = "cacheNode.Take" && kvStr s.cfg "dst" "0" = "1" then r := r.addCover "cacheNode.Take-sections-destination-reused-and-overwritten"
+  if via ≠ "" && kvStr s.cfg "dst" "0" = "1" then r := r.addCover s!"{via}-sections-destination-reused-and-overwritten"
   for o in h do
     r := r.addCover s!"{mode}-calls"
     -- outcome kinds of the user function, per object / user
@@ -167,9 +167,9 @@ def runSection (r : Report) (s : Section) : Report := Id.run do
     if o.goexit then r := r.addCover s!"{who}-call-ended-by-goexit"
     if via ≠ "" then r := r.addCover s!"{via}-entry-point-{o.ep}"
     if o.ep ≥ 2 then r := r.addCover s!"{via}-context-kind-{o.cx}({ctxKindName o.cx})"
-    if o.lkerr && o.cx = 2 then r := r.addCover s!"{via}-cancelled-context-lookup-error"
-    if o.lkerr && o.cx ≠ 2 then r := r.addCover s!"{via}-joiner-got-leaders-lookup-error"
-    if !o.lkerr && o.cx = 2 then r := r.addCover s!"{via}-cancelled-context-joined-a-healthy-flight"
+    if o.lkerr && o.deadCtx then r := r.addCover s!"{via}-cancelled-context-lookup-error"
+    if o.lkerr && !o.deadCtx then r := r.addCover s!"{via}-joiner-got-leaders-lookup-error"
+    if !o.lkerr && o.deadCtx then r := r.addCover s!"{via}-cancelled-context-joined-a-healthy-flight"
     if o.ran then r := r.addCover s!"{mode}-executed" else r := r.addCover s!"{mode}-shared"
     if o.err.isSome then r := r.addCover s!"{mode}-err-result"
     if o.hold then r := r.addCover s!"{mode}-held"
@@ -197,6 +197,10 @@ def runSection (r : Report) (s : Section) : Report := Id.run do
         r := r.addCover "lc-waited-for-running-call"
     if mode = "rm" then
       if o.created then r := r.addCover "rm-created"
+      if o.ran && o.nilv then r := r.addCover s!"rm-loader-returned-nil-nil({if via = "" then "GetResource" else via})"
+      if !o.ran && o.panicked && h.any (fun l => l.key = o.key && l.ran && l.nilv && l.id ≠ o.id) then
+        r := r.addCover "rm-caller-of-a-key-holding-the-nil-instance-panics"
+      if !o.ran && !o.panicked && h.any (fun l => some l.id = o.val && l.nilv) then r := r.addCover s!"{via}-got-the-cached-nil-instance"
       if o.ran && o.failed && !o.spanic then r := r.addCover "rm-create-failed"
       if !o.ran && o.val.isSome then r := r.addCover "rm-got-existing"
       if (inj.lookup o.key).isSome then r := r.addCover "rm-call-on-registered-key"
